@@ -26,3 +26,27 @@ Lemma run_trace_is_drive : forall lines tail sch,
   | StPanic t => Panic t
   end.
 Proof. intros. rewrite iter_tr_run. reflexivity. Qed.
+
+Lemma iter_tr_async_run : forall p s a,
+  fst (iter_tr_async p s a) = iter_pos_async rle cllen pst recog_pst bump_pst lineno_pst p s.
+Proof.
+  induction p as [q IH|q IH|]; intros s a; cbn [iter_tr_async iter_pos_async].
+  - unfold cstep_async. destruct (step_async rle cllen pst recog_pst bump_pst lineno_pst s) as [s1|r s1|t] eqn:E; try reflexivity.
+    pose proof (IH s1 (tr_step_cb a s (Next s1))) as H1.
+    destruct (iter_tr_async q s1 (tr_step_cb a s (Next s1))) as [r1 a1] eqn:E1. cbn [fst] in H1. rewrite <- H1.
+    destruct r1 as [s2|r2 s2|t2]; try reflexivity. apply IH.
+  - pose proof (IH s a) as H1. destruct (iter_tr_async q s a) as [r1 a1] eqn:E1. cbn [fst] in H1. rewrite <- H1.
+    destruct r1 as [s2|r2 s2|t2]; try reflexivity. apply IH.
+  - reflexivity.
+Qed.
+
+(* [run_async] reports the result of [drive_async] *)
+Lemma run_async_is_drive_async : forall lines tail chunks,
+  drive_async rle cllen pst init_pst recog_pst bump_pst lineno_pst lines tail chunks =
+  match fst (iter_tr_async (fuel_for rle cllen lines tail)
+                           (init_st rle cllen pst init_pst lines tail (0 :: chunks)) init_tr) with
+  | Next _ => OutOfFuel
+  | Done r s => Ret (r, s)
+  | StPanic t => Panic t
+  end.
+Proof. intros. rewrite iter_tr_async_run. reflexivity. Qed.
